@@ -203,11 +203,11 @@ def trace {α} (S : Ops α) (rt : RingType) (logNRing : Nat) (v : α) (logN : In
       let gap := if rt = .conjugateInvariant then gap1 / 2 else gap1
       if logN < 0 then .panic                -- `1 << i` with `i = logN < 0` in the first turn
       else
-        let (out, reqs) := traceLoop S nthRoot logNRing logNRing logN.toNat (S.scaleInv gap.toNat v, [])
+        let p := traceLoop S nthRoot logNRing logNRing logN.toNat (S.scaleInv gap.toNat v, [])
         if logN = 0 ∧ rt = .standard then
           let g := nthRoot - 1
-          .ok (S.add out (S.aut g out)) (request false g reqs)
-        else .ok out reqs
+          .ok (S.add p.1 (S.aut g p.1)) (request false g p.2)
+        else .ok p.1 p.2
     else .ok v []
 
 /-! ### Advertised key lists -/
